@@ -659,8 +659,10 @@ func (s Subtitles) WriteToTTML(o io.Writer, opts ...WriteToTTMLOption) (err erro
 
 	// Add regions
 	var k []string
-	for _, region := range s.Regions {
-		k = append(k, region.ID)
+	for id, region := range s.Regions {
+		if region != nil {
+			k = append(k, id)
+		}
 	}
 	sort.Strings(k)
 	for _, id := range k {
@@ -676,8 +678,10 @@ func (s Subtitles) WriteToTTML(o io.Writer, opts ...WriteToTTMLOption) (err erro
 
 	// Add styles
 	k = []string{}
-	for _, style := range s.Styles {
-		k = append(k, style.ID)
+	for id, style := range s.Styles {
+		if style != nil {
+			k = append(k, id)
+		}
 	}
 	sort.Strings(k)
 	for _, id := range k {
